@@ -9,7 +9,7 @@ META = {
     "level": "model_checking",
     "technique": "TLA+ spec Msbar: every sign pattern (quark x reference scale vs mass x reference scale vs coupling reference x nfref, 72 patterns) with the transcribed acceptance table checked by TLC against an independent statement of consistency and of the target patch; numeric instances of every pattern run through the real msbar_masses.compute (orders 1-4, exact/expanded); outcome class, sortedness and the fixed-point residual class (m(m)=m re-evaluated with the repository's evolve in the adjoining patch) judged by TLC (MsbarTrace)",
     "text": "B1 exhaustive over the 72 patterns. B2/B3: random numeric inputs covering consistent and inconsistent patterns for all three quarks and nfref 3-6; consistent inputs must return without error (any exception other than ValueError is a crash violation), sorted, with |m(m)-m|/m <= 1e-6 (clean tree: <= 1e-13); inconsistent ones must raise ValueError.",
-    "note": "Matching ratios 1 and xif 1 in the numeric instances; the decoupling relations' logarithms are covered by C16/C22. Level model_checking for the bookkeeping table, exploration for the numeric fixed point.",
+    "note": "Half of the numeric instances use matching ratios in [0.8,1.3] and xif^2 in [0.5,2]; the fixed point is re-evaluated with the documented coupling (thresholds at m^2 k^2 xif^2); the decoupling relations' logarithms are covered by C16/C22. Level model_checking for the bookkeeping table, exploration for the numeric fixed point.",
     "design_ref": "5 C18",
     "rule": "instance = (nfref, 3 quark patterns, order, method); distinct by seed; non-trivial = accepted with at least one quark not given at its own scale",
 }
